@@ -494,10 +494,11 @@ def lawEqHash (e h : Bool) : Bool := !e || h
 def insertSorted (vs : List Val) (x : Nat) : List Nat → List Nat
   | [] => [x]
   | y :: ys =>
-    if (Val.cmp (vs.getD x .extant) (vs.getD y .extant)) == .lt then x :: y :: ys
+    if (Val.cmp (vs.getD x .extant) (vs.getD y .extant)) != .gt then x :: y :: ys
     else y :: insertSorted vs x ys
 
-/-- Indices of `vs` in stable ascending order (insertion from the right keeps equal elements in input order). -/
+/-- Indices of `vs` in stable ascending order: index `i` is inserted (from the right) in front of the first
+later element that is not smaller, so equal elements keep their input order. -/
 def sortIdx (vs : List Val) : List Nat :=
   (List.range vs.length).foldr (fun i acc => insertSorted vs i acc) []
 
@@ -744,6 +745,12 @@ def checkNew (old : List Fact) (f : Fact) : Option String :=
         then some s!"eq-trans:{p.1.ka}:{p.1.kb}:{q.1.kb}" else none
     else none
 
+/-- Class of a list on which `sort_by` panicked: the kinds outside the fragment `F` that occur in it (`F` if none). -/
+def sortPanicLabel (vs : List Val) : String :=
+  let ks := vs.map Val.kindLabel
+  let bad := ["Data", "Float64", "Record.x"].filter fun k => ks.contains k
+  if bad.isEmpty then "F" else ":".intercalate bad
+
 def isPerm (n : Nat) (idx : List Nat) : Bool :=
   idx.length == n && (List.range n).all fun i => idx.contains i
 
@@ -762,7 +769,7 @@ def Mon.step (m : Mon) (line : String) (out : String) : Mon × Option String :=
     else if op = "sort" then
       match parseValue a, parseValue b with
       | some va, some vb =>
-        if out = "panic" then (m, some s!"sort-panic:{sortPair va.kindLabel vb.kindLabel}")
+        if out = "panic" then (m, some ("sort-panic:" ++ sortPanicLabel [va, vb]))
         else (m, if isPerm 2 ((out.splitOn ",").filterMap String.toNat?) then none else some "sort-not-a-permutation")
       | _, _ => (m, if out = "bad-op" then none else some "unexpected-result")
     else (m, if out = "bad-op" then none else some "unexpected-result")
@@ -770,7 +777,7 @@ def Mon.step (m : Mon) (line : String) (out : String) : Mon × Option String :=
     (match parseAll args with
      | some vs =>
        if out = "panic" then
-         (m, some ("sort-panic:" ++ ":".intercalate ((vs.map Val.kindLabel).eraseDups)))
+         (m, some ("sort-panic:" ++ sortPanicLabel vs))
        else (m, if isPerm vs.length ((out.splitOn ",").filterMap String.toNat?) then none
                 else some "sort-not-a-permutation")
      | none => (m, if out = "bad-op" then none else some "unexpected-result"))
